@@ -17,7 +17,9 @@ ASSUMPTIONS = ['text direction is asserted only where code-point order and case-
 OPS = ['<', '=', '>', '<=', '>=', '<>']
 
 numbers = st.one_of(st.integers(-5, 5), st.integers(-10 ** 9, 10 ** 9), st.sampled_from([0, 1, -1, 0.0, -0.0, 0.5, -0.5, 2.5, 1e-9, 43789, 43789.25, 61, 2]),
-                    st.floats(-1e6, 1e6, allow_nan=False), st.integers(-400, 400).map(lambda k: k / 8.0))
+                    st.floats(-1e6, 1e6, allow_nan=False), st.integers(-400, 400).map(lambda k: k / 8.0),
+                    # host numbers whose class derives from int / float (an IntEnum member, a numpy-style scalar)
+                    st.one_of(st.integers(-9, 9).map(lambda k: {'$': 'sub', 'v': ['int', k]}), st.integers(-40, 40).map(lambda k: {'$': 'sub', 'v': ['float', k / 4.0]})))
 
 
 def _dt(t):
@@ -61,11 +63,18 @@ def near_pair(draw):
     elif k == 1:
         n = draw(st.sampled_from([2 ** 53, 2 ** 53 + 1, 2 ** 54 + 2, 10 ** 17 + 1, 2 ** 63, 2 ** 64 + 1, 3 ** 40, -(2 ** 53) - 1])) + draw(st.integers(-3, 3))
         a, b = n, draw(st.sampled_from([n, n + 1, n - 1, n + 2, float(n), float(n + 1)]))
-    else:
+    elif k == 2:
         o = draw(st.integers(rd.MAR1_ORD, rd.LAST_ORD - 1))
         ms = draw(st.integers(0, 86000000))
         delta = draw(st.sampled_from([1, 2, 1000, 2000, 3000, 60000, 200000, 0]))
         a, b = _dt((o, ms)), _dt((o, ms + delta))
+    else:
+        # date-times 1-3 microseconds apart: a double cannot always tell their serials apart, so only the structural laws are judged (see check_pair)
+        o = draw(st.integers(rd.MAR1_ORD, 760000))
+        us = draw(st.integers(0, 86399999990))
+        d0 = datetime.datetime.fromordinal(o) + datetime.timedelta(microseconds=us)
+        d1 = d0 + datetime.timedelta(microseconds=draw(st.integers(1, 3)))
+        a, b = {'$': 'dt', 'v': d0.isoformat()}, {'$': 'dt', 'v': d1.isoformat()}
     return (a, b) if draw(st.booleans()) else (b, a)
 
 
@@ -78,6 +87,8 @@ def cls(spec):
     if isinstance(spec, bool):
         return 'logical'
     if isinstance(spec, dict):
+        if spec.get('$') == 'sub':
+            return 'text' if spec['v'][0] == 'str' else 'number'
         return 'date'
     if isinstance(spec, str):
         return 'text'
@@ -128,6 +139,8 @@ def check_pair(case):
     a, b = dec(case['a']), dec(case['b'])
     ab, ba = table(a, b, case['how'])
     structural(a, b, ab, ba)
+    if isinstance(a, datetime.datetime) and isinstance(b, datetime.datetime) and a != b and abs(a - b) < datetime.timedelta(microseconds=100):
+        return          # serials closer than a double resolves: which of <, =, > holds is a matter of rounding; that exactly one holds was checked
     try:
         c = ro.compare(a, b)
     except ro.Ambiguous:
